@@ -1,5 +1,6 @@
 import Driver.Proto
 import PqModel.AsyncTrace
+import PqModel.RowGroupProto
 
 /-! Ops for C15: trace validation of the async page reader against `PqModel.Async`.
 
@@ -17,7 +18,16 @@ import PqModel.AsyncTrace
     `async.validate U… <events>` -> `ok <nprod> <handed> <released>` if the log is a path of the
        transition system from `init`, else `illegal <index of the first illegal event>`
     `async.seq U… <ops>` (ops: `s<k>` SeekToRow, `r` ReadPage) -> `ok <results>`: the sequential
-       reference run (SPEC side) -/
+       reference run (SPEC side)
+
+    `rgproto.run <restore 0|1> <events>`: the ConcurrentRowGroupWriter protocol (`PqModel.RowGroupProto`).
+       Events: `b` BeginRowGroup, `f<i>:<x>` one row x into row group writer i, `l<i>` page boundary
+       (rg_i.Flush), `c<i>` rg_i.Commit, `w:<x>` one row through the parent writer, `lo` page boundary
+       in the parent's row group, `W` parent Flush.
+       -> `ok <state after each event, '|' separated> file=<rows of each row group of the MIRROR>
+          spec=<rows of each row group of the SPEC> readable=<0|1>`; a state is
+          `g<row groups>;<own>;<rg 0>;<rg 1>...`, a row group writer is
+          `<await 0|1>.<ordinal>.<buffered rows>.<rows in sealed pages>.<sealed pages>` -/
 namespace Driver.Ops.C15
 open Driver PqModel.Async
 
@@ -76,8 +86,53 @@ def parseUnder? (n st rf ss sf : String) : Option Under := do
   some (mkUnder (← parseNat? n) (← parseList? parseNat? st) (← parseList? parseNat? rf)
     (← parseList? parseNat? ss) (← parseList? parseNat? sf))
 
+namespace Rgp
+open PqModel.RowGroupProto
+
+def parseEv? (s : String) : Option (Ev Nat) :=
+  if s == "b" then some .begin else
+  if s == "lo" then some .flushOwn else
+  if s == "W" then some .wflush else
+  match s.splitOn ":" with
+  | ["w", x] => (parseNat? x).map .write
+  | [f, x] =>
+    match f.toList with
+    | 'f' :: r => do some (.fill (← (String.ofList r).toNat?) (← parseNat? x))
+    | _ => none
+  | [t] =>
+    match t.toList with
+    | 'l' :: r => (String.ofList r).toNat?.map .flush
+    | 'c' :: r => (String.ofList r).toNat?.map .commit
+    | _ => none
+  | _ => none
+
+def showRg (r : Rg Nat) : String :=
+  let sealed := r.pages.foldl (fun n p => n + p.2.length) 0
+  s!"{if r.await then 1 else 0}.{r.ord}.{r.buf.length}.{sealed}.{r.pages.length}"
+
+def showW (w : W Nat) : String :=
+  String.intercalate ";" (s!"g{w.groups.length}" :: showRg w.own :: w.rgs.map showRg)
+
+def showGroups (gs : List (List Nat)) : String :=
+  if gs.isEmpty then "-" else String.intercalate "/" (gs.map (fun g => String.intercalate "." (g.map toString)))
+
+def states (restore : Bool) : W Nat → List (Ev Nat) → List String
+  | _, [] => []
+  | w, e :: es => let w' := step restore w e; showW w' :: states restore w' es
+
+end Rgp
+
 def handle (toks : List String) : Option String :=
   match toks with
+  | ["rgproto.run", restore, evs] => some <|
+    match parseList? Rgp.parseEv? evs with
+    | some es =>
+      let r := restore == "1"
+      let w := PqModel.RowGroupProto.run r es
+      let s := PqModel.RowGroupProto.srun es
+      let sts := Rgp.states r PqModel.RowGroupProto.init es
+      s!"ok {if sts.isEmpty then "-" else String.intercalate "|" sts} file={Rgp.showGroups (w.groups.map PqModel.RowGroupProto.content)} spec={Rgp.showGroups s.out} readable={if PqModel.RowGroupProto.readable w.groups then 1 else 0}"
+    | none => "bad-op"
   | ["async.validate", n, st, rf, ss, sf, evs] => some <|
     match parseUnder? n st rf ss sf, parseList? parseEv? evs with
     | some U, some es =>
